@@ -20,13 +20,15 @@ UNIVERSES = {
     "small": [0, 1, 2, 3, 4, 5, 6, 7],
     "gaps": [10, 20, 40, 41, 70, 100, 300, 1000],
     "bigneg": [-7, -1, 0, 3, 2**31 + 7, 2**40, -(2**33), 12],
+    "hashy": [-1, -2, 0, 2**61 - 1, 1, 2**61, -3, 5],  # pairs of distinct labels with equal hash()
     "str": ["a", "b", "E1", "N2", "10", "n", "zz", "E"],
     "npint": [np.int64(i) for i in (0, 1, 2, 5, 9, 11, 30, 31)],
     "float": [0.5, 1.5, -2.25, 3.0, 10.0, 7.75, 1e9, 0.1],
     "intfloat": [1, 2.5, 3, 4.5, -1, 0.25, 100, 7],
+    "npfloat": [np.float64(x) for x in (0.5, 1.5, 2.25, -3.75, 10.5, 7.125, 0.1, 99.9)],
 }
 LAYERS = [["L1", "L2"], ["a", "b", "c"], ["x", "y", "z", "E"], ["social", "work"], ["", "b"], [0, 1, 2]]
-WEIGHTS = [0.5, 1, 1.5, 2, 2.5, 3, 7, 2.0, 1.0, 0, 0.0]
+WEIGHTS = [0.5, 1, 1.5, 2, 2.5, 3, 7, 2.0, 1.0, 0, 0.0, 0.1, 0.2, 1 / 3, 4e-12, 3e-12]
 MDS = [None, {}, {"a": 1}, {"c": "x"}, {"a": 2, "n": {"k": [1, 2]}}, {"role": "hub", "t": None}]
 FIELDS = ["a", "c", "f", "role"]
 VALUES = [0, 1, "v", [1, 2], {"q": 1}, None, 2.5, "", False]
@@ -54,6 +56,16 @@ class Cfg:
         self.max_size = rng.choice([2, 3, 3, 4, 5])
         self.n_ops = rng.randint(150, 300) if long else rng.randint(5, 40)
         self.invalid_rate = rng.choice([0.0, 0.1, 0.15])
+        self.hub = False
+        if big and rng.random() < 0.5:
+            # hub: few labels, very many hyperedges through each of them (degrees beyond 64), many re-insertions
+            big = False
+            self.hub = True
+            self.uni_name = "gaps"
+            self.labels = [10, 20, 40, 41, 70, 100, 300, 1000, 7][: rng.randint(8, 9)]
+            self.max_size = 5
+            self.n_ops = rng.randint(500, 900)
+            self.invalid_rate = 0.0
         if big:  # scale: tens of labels, hundreds of hyperedges, hundreds of operations
             self.uni_name = "wide"
             base = rng.choice([0, 1000, -50])
@@ -152,7 +164,11 @@ def gen_op(rng, cfg, S):
     """Returns (name, abstract-args).  Invalid calls are generated at cfg.invalid_rate."""
     kind = cfg.kind
     names = [n for n in OPS_BY_KIND[kind] if n not in cfg.avoid]
-    name = rng.choices(names, [OP_WEIGHTS[n] for n in names])[0]
+    if getattr(cfg, "hub", False):  # mostly insertions: the structure keeps growing
+        wts = [OP_WEIGHTS[n] * (6 if n in ("add_edge", "add_edges") else 0.2 if n in ("remove_node", "remove_nodes", "clear") else 1) for n in names]
+    else:
+        wts = [OP_WEIGHTS[n] for n in names]
+    name = rng.choices(names, wts)[0]
     invalid = rng.random() < cfg.invalid_rate
     ekeys = sorted(S.edges, key=lambda k: repr(sorted_key(k)))
     nkeys = sorted(S.nodes, key=repr)
